@@ -19,6 +19,11 @@ type Flow struct {
 	G    *cfg.CFG
 	// switchOf maps each case clause to its switch statement.
 	switchOf map[*ast.CaseClause]ast.Stmt
+	// Inlined (NewFlowInlined only): return statements that belong to spliced-in helpers.
+	Inlined map[*ast.ReturnStmt]bool
+	// Alias (NewFlowInlined only): helper parameter -> caller-side object of the identifier passed for it.
+	Alias    map[types.Object]types.Object
+	skipCall map[ast.Node]bool
 }
 
 // NoReturn reports whether a call never returns (panic, os.Exit, log.Fatal*,
@@ -113,15 +118,42 @@ func Decompose(e ast.Expr, val bool, out []Fact) []Fact {
 }
 
 // EdgeFacts returns the facts implied by leaving block b through successor i.
+//
+// Equivalent source forms yield the same facts, so that rules do not depend on which one the code uses:
+//   - a tagged switch `switch t { case c: … }` yields, besides the legacy Fact{Expr: c, Tag: t}, the synthetic comparison
+//     `t == c` (true on the edge into the clause, false on the edge to the next clause);
+//   - a type switch `switch v := s.(type) { case T: … }` yields the synthetic assertion `s.(T)` (or `s == nil` for `case nil`);
+//   - emptiness tests are expanded both ways (`x == ""` <-> `len(x) == 0`, see expandFacts).
 func (f *Flow) EdgeFacts(b *cfg.Block, i int) []Fact {
-	if len(b.Succs) != 2 || len(b.Nodes) == 0 {
+	return expandFacts(f.Info, f.edgeFacts(b, i))
+}
+
+func (f *Flow) edgeFacts(b *cfg.Block, i int) []Fact {
+	if len(b.Succs) != 2 {
+		return nil
+	}
+	succ0 := b.Succs[0]
+	if succ0.Kind == cfg.KindSwitchCaseBody {
+		if cc, _ := succ0.Stmt.(*ast.CaseClause); cc != nil {
+			if ts, _ := f.switchOf[cc].(*ast.TypeSwitchStmt); ts != nil {
+				subj := TypeSwitchSubject(ts)
+				if subj == nil || len(cc.List) != 1 {
+					return nil // several types in one clause: no single fact
+				}
+				if id, ok := unparen(cc.List[0]).(*ast.Ident); ok && id.Name == "nil" {
+					return []Fact{{Expr: &ast.BinaryExpr{X: subj, Op: token.EQL, Y: cc.List[0], OpPos: cc.Pos()}, Val: i == 0}}
+				}
+				return []Fact{{Expr: &ast.TypeAssertExpr{X: subj, Type: cc.List[0], Lparen: cc.Pos()}, Val: i == 0}}
+			}
+		}
+	}
+	if len(b.Nodes) == 0 {
 		return nil
 	}
 	last, ok := b.Nodes[len(b.Nodes)-1].(ast.Expr)
 	if !ok {
 		return nil
 	}
-	succ0 := b.Succs[0]
 	switch succ0.Kind {
 	case cfg.KindRangeBody:
 		return nil
@@ -129,7 +161,7 @@ func (f *Flow) EdgeFacts(b *cfg.Block, i int) []Fact {
 		cc, _ := succ0.Stmt.(*ast.CaseClause)
 		sw, _ := f.switchOf[cc].(*ast.SwitchStmt)
 		if sw == nil {
-			return nil // type switch: no expression facts
+			return nil
 		}
 		// the last node must be one of the clause's expressions
 		found := false
@@ -144,7 +176,10 @@ func (f *Flow) EdgeFacts(b *cfg.Block, i int) []Fact {
 		if sw.Tag == nil {
 			return Decompose(last, i == 0, nil)
 		}
-		return []Fact{{Expr: last, Val: i == 0, Tag: sw.Tag}}
+		return []Fact{
+			{Expr: last, Val: i == 0, Tag: sw.Tag},
+			{Expr: &ast.BinaryExpr{X: sw.Tag, Op: token.EQL, Y: last, OpPos: last.Pos()}, Val: i == 0},
+		}
 	case cfg.KindIfThen, cfg.KindForBody:
 		return Decompose(last, i == 0, nil)
 	}
@@ -152,6 +187,93 @@ func (f *Flow) EdgeFacts(b *cfg.Block, i int) []Fact {
 	// false successor) are covered above because Succs[0] is always the
 	// true branch.
 	return Decompose(last, i == 0, nil)
+}
+
+// TypeSwitchSubject returns the expression whose dynamic type a type switch inspects.
+func TypeSwitchSubject(ts *ast.TypeSwitchStmt) ast.Expr {
+	var e ast.Expr
+	switch a := ts.Assign.(type) {
+	case *ast.AssignStmt:
+		if len(a.Rhs) == 1 {
+			e = a.Rhs[0]
+		}
+	case *ast.ExprStmt:
+		e = a.X
+	}
+	if ta, ok := unparen(e).(*ast.TypeAssertExpr); ok {
+		return ta.X
+	}
+	return nil
+}
+
+// expandFacts adds, for every emptiness test, its equivalent spelling (synthetic nodes; operands are the original
+// nodes, so type information is available for them):
+//
+//	x == ""  <->  len(x) == 0        x != ""  <->  len(x) != 0, len(x) > 0
+func expandFacts(info *types.Info, facts []Fact) []Fact {
+	out := facts
+	for _, f := range facts {
+		be, ok := unparen(f.Expr).(*ast.BinaryExpr)
+		if !ok || f.Tag != nil {
+			continue
+		}
+		x, y, op := be.X, be.Y, be.Op
+		// normalise constant on the right
+		if ConstOf(info, x) != nil && ConstOf(info, y) == nil {
+			x, y = y, x
+			switch op {
+			case token.LSS:
+				op = token.GTR
+			case token.GTR:
+				op = token.LSS
+			case token.LEQ:
+				op = token.GEQ
+			case token.GEQ:
+				op = token.LEQ
+			}
+		}
+		cv := ConstOf(info, y)
+		if cv == nil {
+			continue
+		}
+		lenArg := func(e ast.Expr) ast.Expr {
+			call, ok := unparen(e).(*ast.CallExpr)
+			if !ok || len(call.Args) != 1 {
+				return nil
+			}
+			if id, ok := unparen(call.Fun).(*ast.Ident); ok && id.Name == "len" {
+				return call.Args[0]
+			}
+			return nil
+		}
+		isString := func(e ast.Expr) bool {
+			if info == nil {
+				return false
+			}
+			tv, ok := info.Types[e]
+			if !ok || tv.Type == nil {
+				return false
+			}
+			b, ok := tv.Type.Underlying().(*types.Basic)
+			return ok && b.Info()&types.IsString != 0
+		}
+		empty := &ast.BasicLit{Kind: token.STRING, Value: `""`, ValuePos: be.Pos()}
+		zero := &ast.BasicLit{Kind: token.INT, Value: "0", ValuePos: be.Pos()}
+		if a := lenArg(x); a != nil && isString(a) {
+			// len(a) <op> const
+			s := cv.ExactString()
+			switch {
+			case (op == token.EQL && s == "0") || (op == token.LSS && s == "1") || (op == token.LEQ && s == "0"):
+				out = append(out, Fact{Expr: &ast.BinaryExpr{X: a, Op: token.EQL, Y: empty, OpPos: be.OpPos}, Val: f.Val})
+			case (op == token.NEQ && s == "0") || (op == token.GTR && s == "0") || (op == token.GEQ && s == "1"):
+				out = append(out, Fact{Expr: &ast.BinaryExpr{X: a, Op: token.NEQ, Y: empty, OpPos: be.OpPos}, Val: f.Val})
+			}
+		} else if isString(x) && cv.ExactString() == `""` && (op == token.EQL || op == token.NEQ) {
+			lenCall := &ast.CallExpr{Fun: &ast.Ident{Name: "len", NamePos: be.Pos()}, Args: []ast.Expr{x}, Lparen: be.Pos(), Rparen: be.End()}
+			out = append(out, Fact{Expr: &ast.BinaryExpr{X: lenCall, Op: op, Y: zero, OpPos: be.OpPos}, Val: f.Val})
+		}
+	}
+	return out
 }
 
 // Automaton is a finite-state forward analysis over the CFG.  States are
@@ -211,6 +333,19 @@ func (f *Flow) Run(a *Automaton) map[*cfg.Block]*StateSet {
 		in[b].each(func(s int) {
 			cur := s
 			for _, n := range b.Nodes {
+				if r, ok := n.(*ast.ReturnStmt); ok && f.Inlined[r] {
+					// the end of a spliced-in helper, not of the analysed function: only its expressions are evaluated
+					for _, e := range r.Results {
+						cur = a.Node(cur, e)
+						if cur < 0 {
+							break
+						}
+					}
+					if cur < 0 {
+						break
+					}
+					continue
+				}
 				cur = a.Node(cur, n)
 				if cur < 0 {
 					break
